@@ -43,4 +43,17 @@ AfterWithPusi(pkts, k, pid) ==
 \* the accumulated unit: from the first PUSI packet up to (not including) the next PUSI packet
 FirstUnit(sel) == LET nxt == { i \in 2..Len(sel) : Get("pusi", sel[i]) = 1 } IN
                   IF nxt = {} THEN sel ELSE SubSeq(sel, 1, (CHOOSE i \in nxt : \A j \in nxt : i <= j) - 1)
+\* index (in pkts) of the packet at which the first unit of pid after packet k completes (Psi!Done on the payload
+\* accumulated since the unit start); 0 if it never does
+MineIdx(pkts, k, pid) == { i \in (k + 1)..Len(pkts) : Get("pid", pkts[i]) = pid }
+DoneIdx(pkts, k, pid) ==
+  LET starts == { i \in MineIdx(pkts, k, pid) : Get("pusi", pkts[i]) = 1 } IN
+  IF starts = {} THEN 0 ELSE
+  LET s0   == CHOOSE i \in starts : \A j \in starts : i <= j
+      rest == { i \in starts : i > s0 }
+      stop == IF rest = {} THEN Len(pkts) + 1 ELSE CHOOSE i \in rest : \A j \in rest : i <= j
+      unit == { i \in MineIdx(pkts, k, pid) : i >= s0 /\ i < stop }
+      Upto(i) == Flatten([j \in 1..Len(pkts) |-> IF j \in unit /\ j <= i THEN PktPayload(pkts[j]) ELSE <<>>])
+      done == { i \in unit : Done(Upto(i)) }
+  IN IF done = {} THEN 0 ELSE CHOOSE i \in done : \A j \in done : i <= j
 =============================================================================
